@@ -273,14 +273,16 @@ XMLDECL = '<?xml version="1.0" encoding="UTF-8" standalone="yes"?>'
 
 
 def package(document: str, comments: str | None = None, header: str | None = None, footer: str | None = None,
-            enc: str = "ascii-refs") -> bytes:
+            enc: str = "ascii-refs", enc_meta: bool = False) -> bytes:
     b = io.BytesIO()
     with zipfile.ZipFile(b, "w", zipfile.ZIP_DEFLATED) as z:
-        z.writestr("[Content_Types].xml", CT)
-        z.writestr("_rels/.rels", RELS)
+        # non-content parts (content types, relationships): same encoding when enc_meta is set
+        meta = (lambda x: encode_part(re.sub(r"^<\?xml[^>]*\?>", "", x), enc)) if enc_meta else (lambda x: x)
+        z.writestr("[Content_Types].xml", meta(CT))
+        z.writestr("_rels/.rels", meta(RELS))
         z.writestr("word/document.xml", encode_part(document, enc))
         if comments is not None:
-            z.writestr("word/_rels/document.xml.rels", DOCRELS)
+            z.writestr("word/_rels/document.xml.rels", meta(DOCRELS))
             z.writestr("word/comments.xml", encode_part(comments, enc))
             z.writestr("word/header1.xml", encode_part(header or "", enc))
             z.writestr("word/footer1.xml", encode_part(footer or "", enc))
@@ -462,6 +464,7 @@ def run(ctx):
                                    "checked per case otherwise)"]
     ctx.extra["proved_walkers"].append("PPTX slide ordering step (stable sort by position; C02/PropsPptx.v) + end-to-end token oracle")
     ctx.extra["proved_walkers"].append("shared ODF helper element_text for ods/odp/odg/odf paragraph text (C02/PropsOdf.v) + ODS/ODP end-to-end oracle")
+    ctx.extra["proved_walkers"].append("ODP slide frames: _iter_slide_frames over nested draw:g, notes page not entered, stable position order (C02/PropsOdp.v)")
     ctx.extra["correspondence_only_or_elsewhere"] = ["PPTX paragraph text, XLSX/XLS/ODS/ODP/ODG: C03/C13", "HTML/MHTML/EPUB: C17",
                                                      "PDF/DOC/PPT/MSG/EML/plain text: not modelled here"]
     ctx.extra["sampled_dimensions"] = {
@@ -480,7 +483,7 @@ def run(ctx):
     import os
     import traceback
     only = os.environ.get("C02_ONLY", "")
-    for modname in ("props.c02_odt", "props.c02_rtf", "props.c02_pptx", "props.c02_odfx"):
+    for modname in ("props.c02_odt", "props.c02_rtf", "props.c02_pptx", "props.c02_odfx", "props.c02_odp"):
         if only and modname.split("_")[-1] not in only.split(","):
             continue
         try:
@@ -546,7 +549,7 @@ def docx_oracle(ctx, term, r, out, xml, variant, enc):
 def docx_part(ctx, dx):
     pre2 = PRE + "From S2T Require Import Gen.C02Tables C02.Witness.\n"
     # ---- structured stream: abstract documents
-    docs = gen_docs(ctx, ctx.n(240, 4000))
+    docs = gen_docs(ctx, ctx.n(160, 4000))
     rng = ctx.rng
     mask = lambda: "[" + ";".join(str(rng.choice([0, 0, 1, 1, 2])) for _ in range(rng.randint(0, 3))) + "]%N"
     masks = [(mask(), mask()) for _ in docs]
@@ -564,14 +567,17 @@ def docx_part(ctx, dx):
             if not xml:
                 continue            # no table: the wrapped variant is the plain one
             enc = pick_encoding(rng)
-            pkg = package(xml, r["comments"], r["header"], r["footer"], enc=enc)
+            enc_meta = rng.random() < 0.5
+            pkg = package(xml, r["comments"], r["header"], r["footer"], enc=enc, enc_meta=enc_meta)
+            if enc_meta:
+                ctx.count("docx-encoding-of-rels-and-content-types:" + enc)
             out, content, err = impl_full_text(pkg)
             ctx.case(("docx", term, variant, mk if variant == "wrapped" else None, enc), ntok >= 3,
                      "docx:" + (kind if len(r["kinds"]) <= 1 else "mixed-unsupported") + ("+row/cell-wrappers" if variant == "wrapped" else ""))
             ctx.count("docx-encoding:" + enc)
             if err is not None:
-                ctx.finding("docx:raises" + ("" if enc in ("ascii-refs", "utf8-raw") else ":" + enc),
-                            f"read_docx raised {err} on a generated document (parts encoded as {enc})",
+                ctx.finding("docx:raises" + ("" if enc in ("ascii-refs", "utf8-raw") else ":" + enc) + (":meta-parts" if enc_meta else ""),
+                            f"read_docx raised {err} on a generated document (parts encoded as {enc}" + (", rels/content types too)" if enc_meta else ")"),
                             {"format": "docx", "doc": term, "document_xml": xml, "encoding": enc, "error": err})
                 continue
             if variant == "plain":
@@ -601,7 +607,7 @@ def docx_part(ctx, dx):
                                                 for i in failing[:5]]
 
     # ---- malformed stream: arbitrary trees + fixtures' document.xml
-    trees = gen_trees(ctx, ctx.n(200, 3000))
+    trees = gen_trees(ctx, ctx.n(150, 3000))
     fixture_terms = []
     res = common.REPO / "sharepoint2text" / "tests" / "resources"
     fixtures = sorted(res.rglob("*.docx"))
@@ -696,5 +702,13 @@ META = {
                   "DOCX body walk; ODT and RTF as reported by their parts. Correspondence-only / not covered here: PPTX, "
                   "XLSX/XLS/ODS (C03/C13), HTML/EPUB (C17), PDF/DOC/MSG/EML bodies (third-party text).",
     "level_note": "Trusted: Coq kernel+VM; the hand-written walker models (validated differentially on Coq-rendered "
-                  "packages, arbitrary trees and fixtures); zipfile/ElementTree as oracles; the harness printers/parsers.",
+                  "packages, arbitrary trees and fixtures); zipfile/ElementTree as oracles; the harness printers/parsers. "
+                  "Not modelled, stated: XML decoding of parts (ElementTree/expat; sampled over 6 encodings incl. rels/content-types/"
+                  "manifest parts, compared with the character-reference reading); PPTX speaker notes: the extractor never opens "
+                  "ppt/notesSlides/* (module docstring), so there is no code to model - notes slides are generated and the oracle "
+                  "asserts their text is in no unit and not in get_full_text(); PPTX paragraph text (a:p/a:r/a:br) and the ODP "
+                  "title/body/other grouping by style name: end-to-end oracle only; the RTF regex pre-pass is transcribed as "
+                  "brace matchers (fail-closed inventory of _DEST_PATTERNS + two correspondences) but proved only for sources in "
+                  "which no pattern matches, otherwise `pre_ok d` is checked per generated document; PDF/DOC/PPT/MSG/EML bodies: "
+                  "third-party text extraction.",
 }
